@@ -17,7 +17,7 @@ DRIVER_ROOT = "Win"
 THEOREMS = [
     "C19.group_new_iff_unseen_or_expired",
     "C19.new_group_announced",
-    "C19.group_routes_to_key",
+    "C19.group_routes_to_key_partial",
     "C19.groups_end_with_source",
     "C19.partition_exactly_one",
     "C19.partition_indexed_exactly_one",
@@ -436,8 +436,24 @@ def cases(rng, tier):
 
 
 # ------------------------------------------------------------------------------------------ oracle (property text)
-class _Key:
-    """wrapper so that a Python dict compares keys exactly as the property's "key" (Python ==/hash)"""
+SYNC_TAG = "[C19-sync-duration-drops-element]"
+SYNC_ID = "C19-sync-duration-drops-element"
+
+
+def classify(case, why):
+    """the known finding, and nothing else: tagged message AND the named group of this case really has a duration that fires
+    (value / completion) synchronously inside its own subscribe"""
+    import re
+    if not isinstance(why, str) or not why.startswith(SYNC_TAG) or case.get("op") != "grp_until":
+        return None
+    m = re.match(re.escape(SYNC_TAG) + r" group #(\d+):", why)
+    if not m:
+        return None
+    g = int(m.group(1))
+    d = case["durs"][g] if g < len(case["durs"]) else {}
+    if "sync" in d and d["sync"][0] in ("N", "C"):
+        return SYNC_ID
+    return None
 
 
 def _call(f, x):
@@ -483,6 +499,7 @@ def oracle_group(case, out):
     outer_term = None
     cur = None
     n_created = 0
+    sync_drops = []
 
     def finish():
         nonlocal cur
@@ -511,9 +528,13 @@ def oracle_group(case, out):
         if c["v"][0] == "raise":      # element_mapper raised: every group still open (a synchronously expired new group is not) fails
             error_alls.append((c["v"][1], c["t"], set(open_.values())))
             return None
-        if c["delivered"] == 0 and not sync:
-            # (a group whose duration fires inside its own subscribe call has an empty lifetime: its creating
-            #  element is dropped by the code as written; documented in ASSUMPTIONS, not demanded here)
+        if c["delivered"] == 0:
+            if sync and g in closed and closed[g][0] == c["t"] and closed[g][1] == ["C"]:
+                # known finding: the duration of the group created by this element fired inside its own subscribe call,
+                # the group expired before the element was pushed.  Recorded, checking continues (anything else wins).
+                sync_drops.append(f"{SYNC_TAG} group #{g}: element {c['x']!r}@{c['t']} (key {c['k']!r}) created the group, whose "
+                                  f"duration fired synchronously inside its own subscribe; the element was delivered to no group")
+                return None
             return f"element {c['x']!r}@{c['t']} (key {c['k']!r}) was delivered to no group"
         return None
 
@@ -673,7 +694,7 @@ def oracle_group(case, out):
                         return f"subscriber of group #{g} saw {s} which is not in the group's record in that order"
                 elif g not in closed or closed[g][1] != s[1] or closed[g][0] > s[0]:
                     return f"subscriber of group #{g} saw terminal {s}, group ended {closed.get(g)}"
-    return None
+    return sync_drops[0] if sync_drops else None
 
 
 def oracle_part(case, out):
@@ -835,24 +856,25 @@ ASSUMPTIONS = [
     "single-threaded / virtual-time execution: one run is one finite list of tagged events (source, duration #g, disposals, late subscriptions); theorems quantify over all such lists",
     "keys are hashable and Python ==/hash on keys is an equivalence relation (hypotheses hrefl/hsymm/htrans of the theorems; NaN-like keys excluded)",
     "subscribers do not call back into the operator from inside their callbacks other than subscribing to the announced group (the `imm` choice)",
-    "a duration observable that fires synchronously inside its own subscribe call (rx.empty(), rx.of(..)) expires its group before the creating element is pushed: "
-    "that element is dropped by the code as written (modelled as `dsync`; C19.group_routes_to_key carries the hypothesis, C19.sync_duration_drops_element shows the drop); "
-    "the oracle does not demand delivery in exactly that case",
+    "known finding C19-sync-duration-drops-element: a duration observable that fires synchronously inside its own subscribe call (rx.empty(), rx.of(..)) "
+    "expires its group before the creating element is pushed and that element reaches no group; the oracle flags exactly this shape (KNOWN-FINDING), "
+    "C19.group_routes_to_key_partial excludes it (dsync = none for a group created by the element), C19.sync_duration_drops_element is the counter-example",
 ]
 TRUSTED_EXTRA = ["reactivex.testing hot observables / TestScheduler as measuring instruments (static same-instant order = creation order)"]
 LEVEL_TEXT = ("Lean theorems over the trace machine of group_by_until/group_by (writers map, expire, Subject terminals, RefCountDisposable, "
               "duration take(1) subscriptions) for ALL event lists, mappers (possibly raising) and subscriber choices, by an invariant proved "
               "preserved by every step: a new group is created iff no live group has an equal key (and subject_mapper does not raise); an "
-              "element is appended to the log of exactly the unique live group of its key and to no other; a source terminal is appended to every "
+              "element is appended to the log of exactly the unique live group of its key and to no other (group_routes_to_key_partial: except the known "
+              "finding C19-sync-duration-drops-element); a source terminal is appended to every "
               "open group, then delivered to the outer subscriber; a firing duration completes exactly its group; logs are next*(terminal)? and "
               "frozen once stopped; expire() never raises KeyError. partition/partition_indexed (publish+ref_count+two filters): with both outputs "
               "subscribed, output 1 = filter(pred), output 2 = filter(not pred) in source order, both get the terminal, for all element lists. "
               "The model is tied to /repo by differential runs of the real operators on TestScheduler hot timelines (timed global log, "
               "subscription intervals, writer taps) and an independent property oracle.")
 LEVEL_NOTE = ("Model = single-threaded trace machine; callbacks are arbitrary total functions alpha -> Except; key equality is assumed to be an "
-              "equivalence (hypotheses of the theorems). group_routes_to_key assumes, for a group created by the element itself, that its duration "
-              "does not fire synchronously inside its own subscribe (C19.sync_duration_drops_element shows the element is dropped otherwise, as the "
-              "real code does with rx.empty() durations). The partition theorems cover the scenario 'both outputs subscribed before the first "
+              "equivalence (hypotheses of the theorems). PARTIAL: group_routes_to_key_partial assumes, for a group created by the element itself, that its "
+              "duration does not fire synchronously inside its own subscribe; the full statement is false of the code (known finding "
+              "C19-sync-duration-drops-element): C19.sync_duration_drops_element is the decided counter-example, replayed on the real code (rx.empty() durations). The partition theorems cover the scenario 'both outputs subscribed before the first "
               "element, never disposed, predicate not raising'; late subscription / disposal / raising and non-boolean predicates / reconnection "
               "are covered by the correspondence and the oracle only. groups_end_with_source states the order 'groups first, then outer' as: only "
               "unsubscriptions follow the outer terminal in the step's effect log. Trusted: the correspondence harness and the hot-observable instrument.")
